@@ -158,6 +158,15 @@ def configs(tier, seed):
                         else:
                             cfg["max_states"] = 12000
                         out.append(cfg)
+    # RUSH with one threshold candidate and six trials in a rung: the candidate arrives after a better trial and is stopped by
+    # the quantile rule (a stopped candidate sets no threshold), worse trials lift the cut, a later trial lands in between
+    for mode in ("min", "max"):
+        for W, perm in ((3, (1, 0, 3, 4, 5, 2)), (2, (1, 0, 4, 3, 5, 2))):
+            if tier == "quick" and W == 2 and mode == "max":
+                continue
+            out.append(dict(rs="g1rf2m4", mode=mode, brackets=1, per_bracket=False, type="rush_stopping", rush_k=1, T=6, W=W,
+                            perms={"1": perm}, seed=seed, use_mra=False, zero_rank=None, id0=0, rereport=0,
+                            max_states=6000 if tier == "quick" else 20000))
     return out
 
 
